@@ -142,7 +142,12 @@ def clone(node):
     """fresh copy of an expression AST (the module trees carry parent links, so copy.deepcopy
     would drag the whole module along)"""
     if isinstance(node, ast.expr):
-        return ast.parse(ast.unparse(node), mode="eval").body
+        src = ast.unparse(node)
+        try:
+            return ast.parse(src, mode="eval").body
+        except SyntaxError:
+            # e.g. a Starred expression: only valid inside a call / display
+            return ast.parse(f"_({src})", mode="eval").body.args[0]
     return ast.parse(ast.unparse(node)).body[0]
 
 
